@@ -985,8 +985,10 @@ def w_hostile_aggs(failure, tier):
     """aggregation requests whose bounds, interval or `predict` are extreme: each search must come back - with a result or an
     error - within a few seconds, and must not panic"""
     add = {"numeric_fields": [{"name": "n", "i64": True, "fast": True, "stored": True}]}
-    docs = [{"_id": "d%d" % i, "body": "alpha", "n": i} for i in range(4)]
+    docs = [{"_id": "d%d" % i, "body": "alpha", "n": i} for i in range(4)] + [{"_id": "neg", "body": "alpha", "n": -5}]
     cases = [
+        ('date_histogram offset 99999999999999999999w (saturates) over a negative timestamp', {"d": {"type": "date_histogram", "field": "n", "fixed_interval": "1s", "offset": "99999999999999999999w"}}),
+        ('date_histogram calendar day, offset 99999999999999999999w', {"d": {"type": "date_histogram", "field": "n", "calendar_interval": "day", "offset": "99999999999999999999w"}}),
         ('moving_avg predict 2^64-1', {"h": {"type": "histogram", "field": "n", "interval": 1.0,
                                             "aggs": {"m": {"type": "moving_avg", "buckets_path": "_count", "window": 2, "predict": 18446744073709551615}}}}),
         ('date_histogram fixed_interval 0s with extended_bounds', {"d": {"type": "date_histogram", "field": "n", "fixed_interval": "0s", "extended_bounds": {"min": "0", "max": "10"}}}),
@@ -1059,6 +1061,100 @@ def w_stale_cursor(failure, tier):
                     observed='the cursor is accepted: hits %s, total_hits_estimate %s (%d documents match)' % ([h['doc_id'] for h in out[1]['ok']['hits']], out[1]['ok'].get('total_hits_estimate'), live),
                     expected='a stale-cursor error (the committed state changed), as after a commit that adds documents')
     return dict(found=False, note='stale cursors: a cursor replayed after a delete-only commit is rejected')
+
+
+# ---------------------------------------------------------------- U36 optional compound clauses
+def w_unmatched_clause(failure, tier):
+    """an optional compound clause that matches NO document must not change any score: bool{should: [bool{must: [alpha, beta]},
+    gamma]} ranks and scores exactly like `gamma` when no document holds both alpha and beta"""
+    skip = set((failure or {}).get('skip_cases') or [])
+    if 'unmatched-clause-adds-score' in skip:
+        return dict(found=False, note='optional compound clauses: the case of this generator is an open known finding (skipped)')
+    docs = [{"_id": "d0", "body": "gamma"}, {"_id": "d1", "body": "gamma alpha filler filler"}, {"_id": "d2", "body": "beta filler"}, {"_id": "d3", "body": "filler filler"}]
+    t = lambda v: {"type": "term", "field": "body", "value": v}
+    q1 = {"type": "bool", "should": [{"type": "bool", "must": [t("alpha"), t("beta")]}, t("gamma")]}
+    q2 = t("gamma")
+    n = 0
+    for ex in ("bm25", "wand"):
+        out, err = drive_search({"schema": None, "batches": [docs], "requests": [dict(REQ_BASE, query=q1, limit=10, execution=ex), dict(REQ_BASE, query=q2, limit=10, execution=ex)]})
+        if out is None or any('ok' not in o for o in out):
+            return dict(found=False, note='search driver failed: %s' % (err or str(out)[:300]))
+        a = [(h['doc_id'], round(h['score'], 4)) for h in out[0]['ok']['hits']]
+        b = [(h['doc_id'], round(h['score'], 4)) for h in out[1]['ok']['hits']]
+        n += 1
+        if a != b:
+            return dict(found=True, cmd='%s search <<< hex(json)' % BIN, case='unmatched-clause-adds-score',
+                        input='d0 "gamma", d1 "gamma alpha filler filler", d2 "beta filler", d3 "filler filler"; query %s, execution %s' % (_json.dumps(q1), ex),
+                        observed='hits %s' % a, expected='%s (the hits and scores of the query `gamma`: the inner bool matches no document)' % b)
+    return dict(found=False, note='optional compound clauses: %d executions, an unmatched inner clause adds nothing' % n)
+
+
+# ---------------------------------------------------------------- U70 dotted leaves under a nested clause
+def w_dotted_leaf(failure, tier):
+    """a leaf clause on a dotted field (`reply.tag`) inside Nested{comment, ..} must agree with the explicit form
+    Nested{comment, .. Nested{reply, tag ..}}: the reply has to belong to the comment that is bound"""
+    skip = set((failure or {}).get('skip_cases') or [])
+    if 'dotted-leaf-wrong-object' in skip:
+        return dict(found=False, note='dotted leaves: the case of this generator is an open known finding (skipped)')
+    add = {"nested_fields": [{"name": "comment", "fields": [
+        {"type": "keyword", "name": "author", "fast": True, "stored": True, "indexed": True},
+        {"type": "numeric", "name": "stars", "i64": True, "fast": True, "stored": True},
+        {"type": "object", "name": "reply", "nullable": True, "fields": [
+            {"type": "keyword", "name": "tag", "fast": True, "stored": True, "indexed": True},
+            {"type": "numeric", "name": "n", "i64": True, "fast": True, "stored": True}]}]}]}
+    docs = [{"_id": "d1", "body": "x", "comment": [{"author": "alice", "stars": 1, "reply": [{"tag": "x", "n": 1}, {"tag": "y", "n": 2}]},
+                                                  {"author": "bob", "stars": 2, "reply": []}]}]
+    def nested(author, leaf, explicit):
+        inner = {"Nested": {"path": "reply", "filter": leaf(False)}} if explicit else leaf(True)
+        return {"Nested": {"path": "comment", "filter": {"And": [{"KeywordEq": {"field": "author", "value": author}}, inner]}}}
+    leaves = [('tag = y', lambda dotted: {"KeywordEq": {"field": "reply.tag" if dotted else "tag", "value": "y"}}),
+              ('n in [2, 2]', lambda dotted: {"I64Range": {"field": "reply.n" if dotted else "n", "min": 2, "max": 2}})]
+    reqs, meta = [], []
+    for lname, leaf in leaves:
+        for author in ("alice", "bob"):
+            for explicit in (True, False):
+                reqs.append(dict(REQ_BASE, query={"type": "match_all"}, filter=nested(author, leaf, explicit)))
+                meta.append((lname, author, explicit))
+    out, err = drive_search({"schema": None, "schema_add": add, "batches": [docs], "requests": reqs})
+    if out is None:
+        return dict(found=False, note='search driver failed: %s' % err)
+    if any('ok' not in o for o in out):
+        return dict(found=False, note='search driver: %s' % str([o for o in out if 'ok' not in o][:1])[:300])
+    n = 0
+    for i in range(0, len(reqs), 2):
+        (lname, author, _), a, b = meta[i], out[i], out[i + 1]
+        ha, hb = [h['doc_id'] for h in a['ok']['hits']], [h['doc_id'] for h in b['ok']['hits']]
+        n += 1
+        if ha != hb:
+            return dict(found=True, cmd='%s search <<< hex(json)' % BIN, case='dotted-leaf-wrong-object',
+                        input='d1 comment: [{author alice, reply [{tag x, n 1}, {tag y, n 2}]}, {author bob, reply []}]; filter Nested{comment, And[author = %s, reply.%s]} (dotted leaf)' % (author, lname),
+                        observed='hits %s' % hb, expected='%s (what the explicit form Nested{comment, And[author = %s, Nested{reply, %s}]} returns)' % (ha, author, lname))
+    return dict(found=False, note='dotted leaves: %d filters agree with their explicit nested form' % n)
+
+
+# ---------------------------------------------------------------- U40 null child objects
+def w_child_null(failure, tier):
+    """an explicit null for a NULLABLE child object of a nested object, under a parent that is not nullable (and the other
+    three combinations): whatever add_document accepts must commit"""
+    n = 0
+    for pn in (False, True):
+        for cn in (False, True):
+            add = {"nested_fields": [{"name": "comment", "nullable": pn, "fields": [
+                {"type": "keyword", "name": "author", "fast": True, "stored": True, "indexed": True},
+                {"type": "object", "name": "reply", "nullable": cn, "fields": [{"type": "keyword", "name": "tag", "fast": True, "stored": True, "indexed": True}]}]}]}
+            ops = [["add", {"_id": "ok", "body": "x", "comment": [{"author": "a", "reply": [{"tag": "t"}]}]}],
+                   ["add", {"_id": "nul", "body": "x", "comment": [{"author": "b", "reply": None}]}], ["commit"]]
+            r = drive('history', [_json.dumps({"schema_add": add, "ops": ops}).encode()])[0]
+            if not r.startswith('OK '):
+                return dict(found=True, cmd='%s history <<< hex(json)' % BIN, input='nested comment (nullable %s) with child object reply (nullable %s); document with reply: null' % (pn, cn), observed=r[:300], expected='the index stays usable')
+            out = _json.loads(r[3:])
+            log = out.get('log') or []
+            n += 1
+            if any('commit failed' in l for l in log):
+                return dict(found=True, cmd='%s history <<< hex(json)' % BIN,
+                            input='nested field comment (nullable: %s) with a child object reply (nullable: %s); add {comment: [{author: b, reply: null}]}, commit' % (pn, cn),
+                            observed='log %s' % [l[:160] for l in log], expected='the document refused when it is queued, or the commit succeeds')
+    return dict(found=False, note='null child objects: %d nullable combinations, every accepted document commits' % n)
 
 
 # ---------------------------------------------------------------- U19 scripts
@@ -2372,7 +2468,6 @@ def w_nested_compact(failure, tier):
 
 GENERATORS = {
     ('U55', 'project_array_shape'): w_nested_compact,
-    ('U54', 'fixed_bucket_start'): w_date_buckets,
     ('U53', 'skip_to_pivot'): w_bmw_blocks,
     ('U52', 'scan_or_terms'): w_optional_clauses,
     ('U52', 'empty_terms_answer'): w_optional_clauses,
@@ -2397,9 +2492,17 @@ GENERATORS = {
     ('U68', 'histogram_fill'): w_hostile_aggs,
     ('U68', 'date_histogram_fill'): w_hostile_aggs,
     ('U68', 'moving_avg_predictions'): w_hostile_aggs,
+    ('U54', 'fixed_bucket_start'): lambda failure, tier: (lambda r: r if r.get('found') else w_date_buckets(failure, tier))(w_hostile_aggs(failure, tier)),
     ('U69', 'agg_score_mode'): w_top_hits_sort,
     ('U67', 'generation_identifies_state'): w_stale_cursor,
     ('U67', 'cursor_generation'): w_stale_cursor,
+    ('U36', 'bool_arm'): lambda failure, tier: (lambda r: r if r.get('found') else w_boost(failure, tier))(w_unmatched_clause(failure, tier)),
+    ('U70', 'i64_leaf_arm'): w_dotted_leaf,
+    ('U40', 'child_null'): w_child_null,
+    ('U72', 'rescore_window'): w_rescore,
+    ('U68', 'bucket_sort_buckets'): w_hostile_aggs,
+    ('U71', 'fixed_arith'): w_hostile_aggs,
+    ('U71', 'calendar_arith'): w_hostile_aggs,
     ('U65', 'writer'): w_two_writers,
     ('U66', 'queue_document'): w_oversize,
     ('U60', 'open_log'): w_history,
@@ -2447,7 +2550,6 @@ GENERATORS = {
     ('U37', 'collapse_pick'): w_collapse,
     ('U37', 'resort_hits'): w_collapse,
     ('U36', 'dismax_arm'): w_boost,
-    ('U36', 'bool_arm'): w_boost,
     ('U36', 'function_score_arm'): w_boost,
     ('U36', 'script_score_arm'): w_boost,
     ('U36', 'constant_score_arm'): w_boost,
